@@ -1269,7 +1269,7 @@ class x86allmncs(object):
         addop("ret",   [0xC2],             noafs, [u16]         , {}                 ,{}                , {bkf:True},                 )
         addop("retf",  [0xCA],             noafs, [u16]         , {}                 ,{}                , {bkf:True},                 )
 
-        addop("rms",   [0x0F, 0xAA],       noafs, no_rm         , {}                 ,{}                , {},                         )
+        addop("rsm",   [0x0F, 0xAA],       noafs, no_rm         , {}                 ,{}                , {},                         )
         addop("sahf",  [0x9E],             noafs, no_rm         , {}                 ,{}                , {},                         )
 
         addop("sar",   [0xD0],             d7   , [im1]         , {w8:(0,0)}         ,{}                , {},                         )
